@@ -513,6 +513,14 @@ fn item_sweep(p: &pdu::Payload, action: Action, item: &Payload, flags: u8) -> Re
 
 /// Accessor-level comparison of a read value with the description it was built from.
 fn check_fields(val: &Val, got: &Got) -> Result<(), String> {
+    // every accessor below is library code: a panic in one of them is a finding, not a crash of the explorer
+    match rpki_verif::guard(|| check_fields_unguarded(val, got)) {
+        Ok(r) => r,
+        Err(p) => Err(format!("an accessor of the value read back panics: {p}")),
+    }
+}
+
+fn check_fields_unguarded(val: &Val, got: &Got) -> Result<(), String> {
     let bad = |what: &str| Err(format!("{what} differs: read {got:?}"));
     match (val, got) {
         (_, Got::Pdu(b)) => {
@@ -555,7 +563,7 @@ fn check_fields(val: &Val, got: &Got) -> Result<(), String> {
                 pdu::Payload::RouterKey(x) => Got::Pdu(Built::Key(x.clone())), pdu::Payload::Aspa(x) => Got::Pdu(Built::Aspa(x.clone())),
                 _ => return bad("payload variant"),
             };
-            check_fields(val, &inner)?;
+            check_fields_unguarded(val, &inner)?;
             let flags = match val { Val::V4 { flags, .. } | Val::V6 { flags, .. } | Val::Key { flags, .. } | Val::Aspa { flags, .. } => *flags, _ => return bad("payload type") };
             if p.version() != val.version() || p.flags() != flags { return bad("payload version/flags") }
             // item and action as the client will see them
@@ -1288,6 +1296,31 @@ fn main() {
     ctx.assume("a reader that does not interpret the version field (every reader except the end-of-data split and the client's version check) may return a PDU carrying any version; 'wrong version' is judged where the version selects a layout or contradicts the negotiated one");
     ctx.assume("a stream 'ends early' when the peer closes; a stream that merely stalls is allowed to be waited for");
 
+    // The fixed seed PDUs and replies of the later spaces, constructed and
+    // written with the library: done under a guard so that a library that
+    // panics here is reported as a violation.
+    type Setup = (Vec<ClientSeed>, Vec<Vec<u8>>, Vec<Vec<usize>>, Vec<Val>, Vec<Vec<u8>>, Vec<Val>, Vec<Vec<u8>>);
+    let setup: Result<Setup, String> = rpki_verif::guard(|| {
+        let cseeds = client_seeds();
+        let cstreams: Vec<Vec<u8>> = cseeds.iter().map(|s| s.reply.iter().flat_map(|v| v.build().wire()).collect()).collect();
+        let coffs: Vec<Vec<usize>> = cseeds.iter().map(|s| s.reply.iter().scan(0usize, |a, v| { let o = *a; *a += v.build().wire().len(); Some(o) }).collect()).collect();
+        let sds = seeds();
+        let swires: Vec<Vec<u8>> = sds.iter().map(|v| v.build().wire()).collect();
+        let lsds = long_seeds();
+        let lwires: Vec<Vec<u8>> = lsds.iter().map(|v| v.build().wire()).collect();
+        (cseeds, cstreams, coffs, sds, swires, lsds, lwires)
+    });
+    let (cseeds, cstreams, coffs, sds, swires, lsds, lwires) = match setup {
+        Ok(x) => x,
+        Err(p) => {
+            let sp = ctx.space("setup", "constructing and writing the seed PDUs and client replies with the library");
+            sp.eval();
+            ctx.fail("C07.rt.no_panic", "constructing and writing the seed PDUs (seeds(), long_seeds(), client_seeds())", p);
+            sp.done(false, "stopped: the seeds cannot be constructed");
+            ctx.finish();
+        }
+    };
+
     //--- (1) round trip of single PDUs ---------------------------------------
     let sp = ctx.space("roundtrip.pdu",
         "every value of the boundary domains (all PDU types, versions 0-2, both actions) written by the library, length field compared with the octets written, read back through every reader that consumes the type, under every fragmentation into <= 3 chunks (every cut position for PDUs <= 64 octets; first 48 / last 8 / 1024-boundary positions for longer ones; quick: <= 2 chunks for PDUs > 64 octets); non-trivial = executions with at least one cut");
@@ -1313,8 +1346,9 @@ fn main() {
     sp.set("values", serde_json::json!(vals.len()));
     let by_type = { let mut m: BTreeMap<String, u64> = BTreeMap::new(); for v in &vals { *m.entry(format!("{:?}", v.ty())).or_insert(0) += 1 } m };
     sp.set("values_by_type", serde_json::json!(by_type));
-    sp.sample_str(|| { let v = &vals[vals.len() / 2]; format!("{} -> {}", v.render(), show(&v.build().wire())) });
-    sp.sample_str(|| { let v = vals.iter().find(|v| matches!(v, Val::Aspa { providers, .. } if providers.len() == 2)).unwrap(); format!("{} -> {}", v.render(), show(&v.build().wire())) });
+    let sample = |v: &Val| format!("{} -> {}", v.render(), rpki_verif::guard(|| show(&v.build().wire())).unwrap_or_else(|p| p));
+    sp.sample_str(|| sample(&vals[vals.len() / 2]));
+    sp.sample_str(|| sample(vals.iter().find(|v| matches!(v, Val::Aspa { providers, .. } if providers.len() == 2)).unwrap()));
     sp.done(true, &format!("{} values x readers x fragmentations into <= 3 chunks ({} for long PDUs)", vals.len(), max_cuts_long + 1));
 
     //--- (1b) the writer as a dimension ------------------------------------------
@@ -1338,8 +1372,6 @@ fn main() {
     //--- (2) round trip of whole replies through the client ------------------
     let sp = ctx.space("roundtrip.client",
         "reset, serial, serial-then-reset and version-downgrade replies (versions 0-2, every payload type the version carries, both actions) written by the library and read by the real Client::step under every fragmentation into <= 3 chunks (quick: <= 2 chunks); the target must receive exactly the items, actions, timing and state written; for <= 2 chunks also Client::new and Client::run against Client::step, and the Error PDUs of Client::send_error (direct and through a failing PayloadTarget::apply) for the four PayloadError values: identical octets, one well-formed Error PDU of the session's version; non-trivial = executions with at least one cut");
-    let cseeds = client_seeds();
-    let cstreams: Vec<Vec<u8>> = cseeds.iter().map(|s| s.reply.iter().flat_map(|v| v.build().wire()).collect()).collect();
     let mut cjobs: Vec<(usize, Vec<Ev>)> = Vec::new();
     for (i, st) in cstreams.iter().enumerate() {
         // every cut position here, the replies are short
@@ -1377,12 +1409,12 @@ fn main() {
         {
             // the address-family octet: every value, against the two constructors
             use rpki::rtr::payload::Afi;
-            let a = Afi::from_u8(plen);
             acc.evals += 1;
-            if a.into_u8() != plen || a.is_ipv4() == a.is_ipv6()
+            let bad = rpki_verif::guard(|| { let a = Afi::from_u8(plen); a.into_u8() != plen || a.is_ipv4() == a.is_ipv6()
                 || (a == Afi::ipv4()) != (plen == Afi::ipv4().into_u8()) || (a == Afi::ipv6()) != (plen == Afi::ipv6().into_u8())
-                || !Afi::ipv4().is_ipv4() || !Afi::ipv6().is_ipv6() || a.to_string() != (if a.is_ipv4() { "ipv4" } else { "ipv6" }) {
-                acc.fail("C07.to_payload.same_item", || format!("Afi::from_u8({plen})"), "Afi accessors disagree with each other".into());
+                || !Afi::ipv4().is_ipv4() || !Afi::ipv6().is_ipv6() || a.to_string() != (if a.is_ipv4() { "ipv4" } else { "ipv6" }) });
+            if bad != Ok(false) {
+                acc.fail("C07.to_payload.same_item", || format!("Afi::from_u8({plen})"), format!("Afi accessors disagree with each other or panic: {bad:?}"));
             }
         }
         for mlen in 0u16..256 { let mlen = mlen as u8; for flags in [0u8, 1] {
@@ -1437,7 +1469,7 @@ fn main() {
                 Some(Ok(got)) => {
                     let aspa = match got { Got::Pdu(Built::Aspa(a)) => a.clone(), Got::Payload(pdu::Payload::Aspa(a)) => a.clone(), other => {
                         acc.fail("C07.accessor.asn_count", &wit, format!("unexpected result {}", trunc(&format!("{other:?}"), 120))); acc.class("violation"); continue } };
-                    let r = accessor_sweep(&Built::Aspa(aspa.clone())).and_then(|()| {
+                    let r = rpki_verif::guard(|| accessor_sweep(&Built::Aspa(aspa.clone()))).unwrap_or_else(|m| Err(format!("an accessor panics: {m}"))).and_then(|()| {
                         rpki_verif::guard(|| pdu::Payload::Aspa(aspa.clone()).to_payload().map(|(a, it)| (a, it.as_aspa().map(|x| x.providers.len())))).map_err(|m| format!("to_payload panics: {m}"))
                             .and_then(|r| match r { Ok((_, Some(len))) if len == 4 * n || (flags & 1 == 0 && len == 0) => Ok(()), other => Err(format!("to_payload gives {other:?}")) })
                     });
@@ -1456,10 +1488,6 @@ fn main() {
     //--- (3) truncation -------------------------------------------------------
     let sp = ctx.space("fault.truncation",
         "every sequence of <= 2 seed PDUs (one of every type in every version; quick: pairs of equal version only) x every reader that consumes the types x stream closed after k octets for every k (close in the same batch as the octets / after quiescence), plus two long seeds, plus every reader on every seed (type mismatch); expected from the wire grammar: error within the bound, or the complete PDUs read back equal; non-trivial = cases with k strictly inside a PDU");
-    let sds = seeds();
-    let swires: Vec<Vec<u8>> = sds.iter().map(|v| v.build().wire()).collect();
-    let lsds = long_seeds();
-    let lwires: Vec<Vec<u8>> = lsds.iter().map(|v| v.build().wire()).collect();
     #[derive(Clone, Copy)] enum TJob { One(usize), Pair(usize, usize), Long(usize), Cross(usize) }
     let mut tjobs: Vec<TJob> = Vec::new();
     for i in 0..sds.len() { tjobs.push(TJob::One(i)); tjobs.push(TJob::Cross(i)) }
@@ -1564,7 +1592,7 @@ fn main() {
                 judge_client_variants(&mut acc, &cseeds[*i], &cstreams[*i], &script, &format!("cut={k} "));
             },
             CJob::Corrupt(i, pi) => {
-                let off: usize = cseeds[*i].reply[..*pi].iter().map(|v| v.build().wire().len()).sum();
+                let off: usize = coffs[*i][*pi];
                 for (what, head) in corruptions(&cstreams[*i][off..]) {
                     let stream: Vec<u8> = [&cstreams[*i][..off], &head[..]].concat();
                     if matches!(client_grammar(cseeds[*i].state.is_some(), &stream), CExp::Malformed(_)) { acc.nontrivial += 1 }
